@@ -102,8 +102,34 @@ class KllC08(Part):
                       "q %d err 0" % s, "q %d err 1" % s]
         return h
 
+    def chain_history(self, rng, tier):
+        """the published error after merge CHAINS of mixed k: get_normalized_rank_error is a function of the smallest k that ever
+        contributed estimation-mode data (min_k), which must be handed on through every later merge, in either direction"""
+        ty = rng.choice("iid")
+        small = rng.choice([8, 12, 16, 20])
+        big = rng.choice([64, 128, 200, 256])
+        mid = rng.choice([32, 40, big])
+        h = ["coins " + "".join(rng.choice("01") for _ in range(4000))]
+        ks = [big, small, big, mid]
+        for s_, k in enumerate(ks):
+            h.append("new %d %s %d" % (s_, ty, k))
+        h.append("updn 1 %d %d 7 10007" % (rng.choice([40 * small, 2000]), rng.randrange(10007)))     # small k, estimation mode
+        h.append("updn 0 %d %d 1 101" % (rng.choice([3, 10, 50]), rng.randrange(101)))
+        h.append("updn 2 %d %d 1 101" % (rng.choice([3, 10, 3 * big]), rng.randrange(101)))
+        h.append("updn 3 %d %d 3 1009" % (rng.choice([5, 20 * mid]), rng.randrange(1009)))
+        order = rng.choice([[(0, 1), (2, 0), (3, 2)], [(0, 1), (2, 0), (2, 3)], [(3, 1), (0, 3), (2, 0)], [(1, 3), (0, 1), (2, 0)]])
+        for a, b in order:
+            h.append("merge %d %d" % (a, b))
+            for x in (a, b):
+                h += ["q %d err 0" % x, "q %d err 1" % x]
+            if rng.random() < 0.5:
+                h.append("updn %d %d %d 1 101" % (a, rng.choice([1, 30]), rng.randrange(101)))
+        for x in range(4):
+            h += ["q %d view" % x, "q %d err 0" % x, "q %d err 1" % x]
+        return h
+
     def generate(self, rng, tier):
-        hs = []
+        hs = [self.chain_history(rng, tier) for _ in range(6 if tier == "quick" else 40)]
         if tier == "quick":
             budgets = [rng.choice([3, 5, 6, 8, 9, 10, 11, 12]) for _ in range(40)]
             nlong = 6
